@@ -46,6 +46,7 @@ namespace
     std::vector<std::pair<std::pair<long long, long long>, double>> m1;   // type-1 matrix entries by (row key, column key)
     std::vector<long long> base_keys; std::vector<double> joined, split_out;   // base splitter (root only: base_keys/joined)
     double dot = 0, norm2 = 0, gmax = 0, gmin = 0, gsum = 0;
+    double vmax_abs = 0, vmin_abs = 0, vmax = 0, vmin = 0;   // element reductions of the test vector
     int status = -1; Index iters = 0; double def_init = 0, def_final = 0, h0 = 0, h1 = 0;
     // reference world only: how far a rounding-size perturbation of the right-hand side moves the same solve (noise floor)
     double noise_sol = 0, noise_def = 0, noise_h0 = 0, noise_h1 = 0; long noise_iters = 0;
@@ -228,6 +229,36 @@ namespace
       for(Index d = 0; d < nd; ++d) out.ax.push_back(gr.local()(d));
       the_system_level.matrix_sys.apply(gr, gx, gy, -0.5);
       for(Index d = 0; d < nd; ++d) out.ax3.push_back(gr.local()(d));
+      {
+        // the other product variants must agree with the two above: transposed (the operators used here are symmetric)
+        // and asynchronous (ticket waited after an independent reduction was started in between)
+        GlobalSystemVector gt = the_system_level.matrix_sys.create_vector_r();
+        double smax = 0; for(Index d = 0; d < nd; ++d) smax = std::max(smax, std::abs(out.ax[d]));
+        double smax3 = 0; for(Index d = 0; d < nd; ++d) smax3 = std::max(smax3, std::abs(out.ax3[d]));
+        smax = the_system_level.gate_sys.max(smax); smax3 = the_system_level.gate_sys.max(smax3);
+        the_system_level.matrix_sys.apply_transposed(gt, gx);
+        for(Index d = 0; d < nd; ++d) if(!(std::abs(gt.local()(d) - out.ax[d]) <= 1e-12 * smax)) sim::fail("MATVEC_VARIANT", "apply_transposed of a symmetric operator differs from apply: " + std::to_string(gt.local()(d)) + " vs " + std::to_string(out.ax[d]));
+        the_system_level.matrix_sys.apply_transposed(gt, gx, gy, -0.5);
+        for(Index d = 0; d < nd; ++d) if(!(std::abs(gt.local()(d) - out.ax3[d]) <= 1e-12 * smax3)) sim::fail("MATVEC_VARIANT", "apply_transposed(r, x, y, alpha) of a symmetric operator differs from apply(r, x, y, alpha)");
+        {
+          auto tk = the_system_level.matrix_sys.apply_async(gt, gx);
+          auto ts = gx.max_abs_element_async();
+          const double ma = ts.wait();
+          tk.wait();
+          for(Index d = 0; d < nd; ++d) if(!(std::abs(gt.local()(d) - out.ax[d]) <= 1e-12 * smax)) sim::fail("MATVEC_VARIANT", "apply_async differs from apply");
+          out.vmax_abs = ma;
+        }
+        {
+          auto tk = the_system_level.matrix_sys.apply_async(gt, gx, gy, -0.5);
+          tk.wait();
+          for(Index d = 0; d < nd; ++d) if(!(std::abs(gt.local()(d) - out.ax3[d]) <= 1e-12 * smax3)) sim::fail("MATVEC_VARIANT", "apply_async(r, x, y, alpha) differs from apply(r, x, y, alpha)");
+        }
+        // element reductions of the distributed vector (each DOF value is a function of its key)
+        out.vmin_abs = gx.min_abs_element();
+        if(gx.max_abs_element() != out.vmax_abs) sim::fail("GLOBAL_SCALAR", "max_abs_element and max_abs_element_async disagree");
+        out.vmax = gx.max_element_async().wait();
+        out.vmin = gx.min_element_async().wait();
+      }
       the_system_level.matrix_sys.extract_diag(gr, true);
       for(Index d = 0; d < nd; ++d) out.diag.push_back(gr.local()(d));
       the_system_level.matrix_sys.lump_rows(gr, true);
@@ -393,6 +424,12 @@ namespace
         double sabs = 0; for(size_t i = 0; i < B.keys.size(); ++i) sabs += std::abs(g_val(B.keys[i], 1) * g_val(B.keys[i], 2));
         if(!close(A[0].dot, B.dot, 1e-13, sabs + 1)) sim::fail("DOT", "global dot " + std::to_string(A[0].dot) + " differs from the one-process value " + std::to_string(B.dot));
         if(!close(A[0].norm2, B.norm2, 1e-13, std::abs(B.norm2) + 1)) sim::fail("NORM2", "global norm2 differs from the one-process value");
+        double emax = -1e300, emin = 1e300, eamax = 0, eamin = 1e300;
+        for(size_t i = 0; i < B.keys.size(); ++i) { const double v = g_val(B.keys[i], 1); emax = std::max(emax, v); emin = std::min(emin, v); eamax = std::max(eamax, std::abs(v)); eamin = std::min(eamin, std::abs(v)); }
+        for(const RankOut& r : A)
+          if(r.vmax != emax || r.vmin != emin || r.vmax_abs != eamax || r.vmin_abs != eamin)
+            sim::fail("ELEMENT_REDUCTION", "max/min/max_abs/min_abs element of the distributed vector: " + std::to_string(r.vmax) + " " + std::to_string(r.vmin) + " " + std::to_string(r.vmax_abs) + " " + std::to_string(r.vmin_abs) +
+              ", of the undecomposed vector: " + std::to_string(emax) + " " + std::to_string(emin) + " " + std::to_string(eamax) + " " + std::to_string(eamin));
       }
       // 1,2,3 per level
       std::map<std::pair<int, int>, std::vector<const LevelOut*>> groups;
